@@ -78,6 +78,8 @@ def run(tier):
         orc = sched.expect_exact(0, exp)
         for W in (1, 3):
             for rf, wf in ((4096, 0), (33333, 1000), (99999, 0), (100001, 7)):
+                if wf == 7:
+                    wf = max(7, len(exp) // 400)      # keep the number of write() calls well inside the harness horizon
                 frag.add('frag-policy', 'fast', ['-n%d' % W, lvl] + mode, data, orc,
                          '%s W=%d rfrag=%d wfrag=%d' % (desc0, W, rf, wf), {'rfrag': rf, 'wfrag': wf, 'horizon': 5900})
     maxd = 2 if quick else 3
